@@ -594,7 +594,7 @@ pub const C05: FamilySpec = FamilySpec {
     profile: Profile::Eos,
     fams: &[Fam::Eos, Fam::Alive, Fam::Panic],
     stall_is_violation: false,
-    runs_quick: 24_000,
+    runs_quick: 72_000,
     runs_thorough: 6_400_000,
     rule: "one case = one execution of a seeded scenario of writes (including zero-length and all-empty vectored ones), shutdowns, drops and reads on both ends of 1-8 streams; \
 the history is checked against a pipe-with-half-close model (EOF only after the peer finished/aborted/connection end and after all bytes written before a clean shutdown; writes after local shutdown or delivered peer Reset must fail with BrokenPipe); \
